@@ -49,6 +49,7 @@ type srvCfg struct {
 	ExpiredFirst  int    // the first N batch responses carry already expired actions
 	ExpiredHow    string // "in" | "at"
 	Authenticated *bool  // nil: leave fakelfs default (true)
+	AuthMode      string // part authenticated: "true" | "false" (member present, false) | "omitted" (member absent); "" = Authenticated applies (its false is sent as an absent member)
 	Transfer      string // "" -> "basic"; "-" -> omit
 	HashAlgo      string // "" -> omit
 	ErrorFor      map[string]int  // oid -> per-object error code instead of actions
@@ -206,6 +207,11 @@ func (s *c18srv) hook(fs *fakelfs.Server, w http.ResponseWriter, r *http.Request
 		}
 		if fl[n].Status == 401 {
 			w.Header().Set("Lfs-Authenticate", `Basic realm="C18"`)
+			if kind == "other" {
+				s.mu.Lock()
+				s.facts.Action401 = true // an action endpoint itself demanded credentials
+				s.mu.Unlock()
+			}
 		}
 		writeBody(w, fl[n].Status, []byte(fmt.Sprintf(`{"message":"injected fault %d"}`, fl[n].Status)))
 		return true
@@ -449,6 +455,21 @@ func (s *c18srv) batchHook(fs *fakelfs.Server, breq *fakelfs.BatchRequest, resp 
 	if root, ok := tree.(map[string]interface{}); ok && trf == emptyTransfer {
 		root["transfer"] = "" // present but empty: no identifier named, the client is left with basic
 	}
+	if root, ok := tree.(map[string]interface{}); ok && c.AuthMode != "" {
+		objs, _ := root["objects"].([]interface{})
+		for _, o := range objs {
+			if om, ok := o.(map[string]interface{}); ok {
+				switch c.AuthMode {
+				case "true":
+					om["authenticated"] = true
+				case "false":
+					om["authenticated"] = false
+				case "omitted":
+					delete(om, "authenticated")
+				}
+			}
+		}
+	}
 	body := s.finish("batch", tree)
 	s.logOffers(idx, breq, body)
 	return 200, body
@@ -484,6 +505,7 @@ func (s *c18srv) logOffers(idx int, breq *fakelfs.BatchRequest, body []byte) {
 			continue
 		}
 		oid, _ := om["oid"].(string)
+		authd, _ := om["authenticated"].(bool) // true only for the JSON literal true, exactly as sent
 		for _, member := range []string{"actions", "_links"} {
 			acts, _ := om[member].(map[string]interface{})
 			for rel, a := range acts {
@@ -492,7 +514,7 @@ func (s *c18srv) logOffers(idx int, breq *fakelfs.BatchRequest, body []byte) {
 					continue
 				}
 				href, _ := am["href"].(string)
-				of := offered{RespSeq: idx, Oid: oid, Rel: rel, Href: href, Header: map[string]string{}, BadAlgo: bad, Op: op, HeaderOK: true, Transfer: named, Proto: proto}
+				of := offered{RespSeq: idx, Oid: oid, Rel: rel, Href: href, Header: map[string]string{}, BadAlgo: bad, Op: op, HeaderOK: true, Transfer: named, Proto: proto, Authd: authd}
 				if h, present := am["header"]; present && h != nil {
 					hm, ok := h.(map[string]interface{})
 					if !ok {
